@@ -91,6 +91,17 @@ def tld_domains(tier, rng, mdl):
         for t in wt:
             out.append(w + b"." + t)
             out.append(b"x." + w + b"." + t)
+    # unlisted labels whose digest (ten well-known 32-bit string hashes) equals that of a row of the same length
+    import json, os
+    try:
+        col = json.load(open(os.path.join(os.path.dirname(os.path.abspath(__file__)), "data", "tld_collisions.json")))
+    except OSError:
+        col = {}
+    for hname in sorted(col):
+        for lab, row in col[hname]:
+            if lab.encode() not in known:
+                out.append(b"a." + lab.encode())
+                out.append(b"mail.b1." + lab.upper().encode())
     # single-label (non-FQDN) forms
     for n in rng.sample(names, 200 if tier == "quick" else len(names)):
         out.append(n)
